@@ -138,6 +138,14 @@ fn hostile_message(idx: usize, rng: &mut Rng) -> Option<(u8, u32, Vec<u8>, Strin
         (vec![s("@setDataFrame"), s("onMetaData"), Amf0Value::Null], "sdfnull"),
         (vec![s("@setDataFrame"), s("onMetaData"), obj(vec![("width", s("x")), ("stereo", Amf0Value::Number(1.0)), ("encoder", Amf0Value::Null)])], "sdfbadtypes"),
         (vec![s("@setDataFrame"), s("onMetaData"), obj(vec![("width", Amf0Value::Number(-1.0)), ("height", Amf0Value::Number(1e300)), ("framerate", Amf0Value::Number(f64::NAN))])], "sdfextreme"),
+        // legal but unusual value types and lengths for every metadata key (some encoders send FourCC strings as codec ids)
+        (vec![s("@setDataFrame"), s("onMetaData"), obj(vec![("videocodecid", s("")), ("audiocodecid", s("h"))])], "sdfcodecstr01"),
+        (vec![s("@setDataFrame"), s("onMetaData"), obj(vec![("videocodecid", s("vp8")), ("audiocodecid", s("mp3"))])], "sdfcodecstr3"),
+        (vec![s("@setDataFrame"), s("onMetaData"), obj(vec![("videocodecid", s("avc1")), ("audiocodecid", s("mp4a")), ("encoder", s(""))])], "sdfcodecstr4"),
+        (vec![s("@setDataFrame"), s("onMetaData"), obj(vec![("videocodecid", s("h\u{e9}v\u{e9}c")), ("audiocodecid", Amf0Value::Boolean(true)), ("width", Amf0Value::Boolean(true)), ("stereo", s("yes"))])], "sdfcodecstr5"),
+        (vec![s("onMetaData"), obj(vec![("videocodecid", s("")), ("audiocodecid", s("h"))])], "mdcodecstr01"),
+        (vec![s("onMetaData"), obj(vec![("videocodecid", s("vp8")), ("audiocodecid", s("mp3")), ("duration", s("x")), ("filesize", Amf0Value::Null)])], "mdcodecstr3"),
+        (vec![s("onMetaData"), obj(vec![("videocodecid", s("avc1")), ("audiocodecid", s("mp4a"))])], "mdcodecstr4"),
         (vec![s("onMetaData")], "md0"),
         (vec![s("onMetaData"), Amf0Value::Number(1.0)], "mdnum"),
         (vec![Amf0Value::Number(1.0)], "dnum"),
@@ -600,7 +608,10 @@ fn run_case(c: &Value) -> (String, usize, Value) {
             if t == "server" {
                 let (mut srv, mut peer) = match server_in_state(state) { Some(x) => x, None => return ("err".to_string(), 0) };
                 let mut bytes = peer.encode_raw(ty, body, 3, msid);
-                bytes.extend(peer.encode(RtmpMessage::UserControl { event_type: UserControlEventType::PingRequest, stream_id: None, buffer_length: None, timestamp: Some(RtmpTimestamp::new(9)) }, 4, 0));
+                // with a following message in the same input, or with the input ending exactly on the hostile message
+                if c["tail"].as_bool().unwrap_or(true) {
+                    bytes.extend(peer.encode(RtmpMessage::UserControl { event_type: UserControlEventType::PingRequest, stream_id: None, buffer_length: None, timestamp: Some(RtmpTimestamp::new(9)) }, 4, 0));
+                }
                 total = bytes.len();
                 let mut pos = 0;
                 for n in cut_sizes(&mut rng, cut, bytes.len()) {
@@ -610,7 +621,9 @@ fn run_case(c: &Value) -> (String, usize, Value) {
             } else {
                 let (mut cl, mut peer) = match client_in_state(state) { Some(x) => x, None => return ("err".to_string(), 0) };
                 let mut bytes = peer.encode_raw(ty, body, 3, msid);
-                bytes.extend(peer.encode(RtmpMessage::UserControl { event_type: UserControlEventType::PingRequest, stream_id: None, buffer_length: None, timestamp: Some(RtmpTimestamp::new(9)) }, 4, 0));
+                if c["tail"].as_bool().unwrap_or(true) {
+                    bytes.extend(peer.encode(RtmpMessage::UserControl { event_type: UserControlEventType::PingRequest, stream_id: None, buffer_length: None, timestamp: Some(RtmpTimestamp::new(9)) }, 4, 0));
+                }
                 total = bytes.len();
                 let mut pos = 0;
                 for n in cut_sizes(&mut rng, cut, bytes.len()) {
@@ -1005,11 +1018,13 @@ pub fn cases(kind: &str, tier: &str, seed: u64) -> Vec<Value> {
                 v.push(json!({"t":"msg","idx":idx,"seed":rng.next() >> 1}));
                 for state in 0..5u64 {
                     if !thorough && idx % 5 != (state as usize) && idx % 3 != 0 { continue; }
-                    v.push(json!({"t":"server","state":state,"idx":idx,"cut": (idx as u64 + state) % 3,"seed":rng.next() >> 1}));
+                    v.push(json!({"t":"server","state":state,"idx":idx,"cut": (idx as u64 + state) % 3,"seed":rng.next() >> 1,"tail":true}));
+                    v.push(json!({"t":"server","state":state,"idx":idx,"cut": (idx as u64 + state + 1) % 3,"seed":rng.next() >> 1,"tail":false}));
                 }
                 for state in 0..9u64 {
                     if !thorough && idx % 9 != (state as usize) && idx % 4 != 0 { continue; }
-                    v.push(json!({"t":"client","state":state,"idx":idx,"cut": (idx as u64 + state) % 3,"seed":rng.next() >> 1}));
+                    v.push(json!({"t":"client","state":state,"idx":idx,"cut": (idx as u64 + state) % 3,"seed":rng.next() >> 1,"tail":true}));
+                    v.push(json!({"t":"client","state":state,"idx":idx,"cut": (idx as u64 + state + 1) % 3,"seed":rng.next() >> 1,"tail":false}));
                 }
                 idx += 1;
             }
